@@ -6,6 +6,7 @@ import (
 	"crypto/md5"
 	"fmt"
 	"net"
+	"strings"
 	"sync"
 	"time"
 
@@ -427,6 +428,11 @@ func addMessageAuthenticator(packet *radius.Packet, secret []byte) error {
 
 // formatMAC formats a MAC address for RADIUS (uppercase with dashes)
 func formatMAC(mac net.HardwareAddr) string {
+	if len(mac) < 6 {
+		// Not an Ethernet address (e.g. a DHCP client that sent hlen < 6): use the
+		// generic form instead of indexing past the end.
+		return strings.ToUpper(strings.ReplaceAll(mac.String(), ":", "-"))
+	}
 	return fmt.Sprintf("%02X-%02X-%02X-%02X-%02X-%02X",
 		mac[0], mac[1], mac[2], mac[3], mac[4], mac[5])
 }
